@@ -4,7 +4,7 @@ CONSTANTS
   MaxCols = 3
   MaxClauses = 1
   Searches = {"*", "x=1"}
-  CmdsWithCols = {"fields", "dedup", "dedup 2", "sort", "sort 0", "sort 2", "sort -", "top", "top 0", "rare"}
+  CmdsWithCols = {"fields", "dedup", "dedup 2", "sort", "sort 0", "sort 2", "sort -", "top", "top 0", "top 1", "rare", "rare 0", "rare 1"}
   CmdsWithBy = {"stats count", "stats sum(x)", "timechart count", "streamstats count", "eventstats count"}
 INVARIANT Bound
 CONSTRAINT Emit
